@@ -68,9 +68,9 @@ def b2 (b : Bool) : String := if b then "1" else "0"
 def fmtState : Node → String
   | .src s => s!"al={b2 s.alive}"
   | .flow _ _ s => s!"cr={s.credit},dm={s.demand},bf={s.buf.length},cp={b2 s.completing},al={b2 s.alive}"
-  | .fused _ _ s => s!"cr={s.credit},al={b2 s.alive}"
-  | .batch _ _ s => s!"cr={s.credit},dm={s.demand},wn={s.window.length},al={b2 s.alive}"
-  | .pmap _ _ _ _ _ s => s!"if={s.inFlight},pn={s.pending.length},ne={s.nextEmit},ud={b2 s.upDone},al={b2 s.alive}"
+  | .fused _ _ s => s!"cr={s.credit},st={b2 s.started},al={b2 s.alive}"
+  | .batch _ _ s => s!"cr={s.credit},dm={s.demand},wn={s.window.length},fd={b2 s.flushDue},cp={b2 s.completing},al={b2 s.alive}"
+  | .pmap _ _ _ _ _ s => s!"if={s.inFlight},pn={s.pending.length},ne={s.nextEmit},ud={b2 s.upDone},st={b2 s.started},al={b2 s.alive}"
   | .sink _ s => s!"cr={s.credit},al={b2 s.alive},hk={s.hooks}"
 
 def render (out : Out) (nd : Node) : String :=
@@ -234,6 +234,11 @@ def judgeSt (spec : String) (c o : String) : String :=
         match judgeHooks (ptoks.map fun (_, st) => ((stateField st "al").getD 1 == 1, (stateField st "hk").getD 0)) with
         | none => "ok"
         | some why => "bad " ++ why
+      else if (spec.startsWith "fused:" || spec.startsWith "opm" || spec.startsWith "pm") &&
+          ((ptoks.head?.map (·.1)).getD []).any (·.startsWith "u:r") then
+        -- protocol rule behind the model's "stageWire first" assumption (fix cf400b2): demand originates at the sink,
+        -- which is wired last; a stage that pulls while handling its own stageWire can feed a neighbour that is not wired yet
+        "bad the stage requested elements from upstream while handling its stageWire (before any downstream demand)"
       else
         let srcVals := if spec.startsWith "src" then parseVals ((spec.drop 4).toString) else none
         let stages : Option (List Stage) :=
